@@ -32,6 +32,50 @@ def utf8_ok(b):
         return False
 
 
+def pty_leg(run, tier):
+    """the fancy console on a real pty: long lines of multi-byte text as last output line, long descriptions, many tasks;
+    the build must finish normally whatever is rendered"""
+    import shutil, tempfile
+    n2, out = build_n2_binary()
+    if n2 is None:
+        run.tie("n2 build", out[-1000:])
+        return 0
+    if shutil.which("script") is None:
+        return 0
+    d = tempfile.mkdtemp(prefix="n2verif-c20-%d-" % os.getpid())
+    n = 0
+    try:
+        lines = ["rule say", "  command = printf '%s\\n' \"$text\"; sleep 0.3; printf '%s' \"$text\" > $out", "  description = $desc"]
+        texts = ["a" * 511 + "é" * 40, "€" * 300, "😀" * 200, "x" * 79 + "é", "plain", "é" * 39 + "a" * 3, "a" * 509 + "😀😀"]
+        prev = None
+        for i, t in enumerate(texts):
+            lines += ["build o%d: say%s" % (i, (" || " + prev) if prev and i % 2 else ""), "  text = %s" % t, "  desc = %s" % (t[:100] + " é" * 30)]
+            prev = "o%d" % i
+        for i in range(90):
+            lines += ["build q%d: say" % i, "  text = q", "  desc = quick %d" % i]
+        open(os.path.join(d, "build.ninja"), "w").write("\n".join(lines) + "\n")
+        for cols in (80, 10, 13, 200):
+            cmd = "stty cols %d 2>/dev/null; %s -j 8" % (cols, n2)
+            p = subprocess.run(["script", "-qec", cmd, "/dev/null"], cwd=d, stdout=subprocess.PIPE, stderr=subprocess.STDOUT,
+                               stdin=subprocess.DEVNULL, timeout=300, env=ENV)
+            txt = p.stdout.decode("utf-8", "replace")
+            n += 1
+            where = {"suite": "pty", "cols": cols, "rc": p.returncode, "tail": txt[-400:]}
+            if "panicked" in txt or p.returncode != 0:
+                run.report_failure(None, "the fancy console broke the build on a %d-column pty (rc %d)" % (cols, p.returncode), where)
+            else:
+                for m in re.finditer(r"\[([=\- ]*)\] \d+/\d+ done", txt):
+                    if len(m.group(1)) != 40:
+                        run.report_failure(None, "progress bar is %d wide, not 40" % len(m.group(1)), where)
+                        break
+            for f in os.listdir(d):
+                if f.startswith("o") or f.startswith("q") or f == ".n2_db":
+                    os.remove(os.path.join(d, f))
+    finally:
+        shutil.rmtree(d, ignore_errors=True)
+    return n
+
+
 def main(tier, seed, replay=None):
     run = Run(PROP, tier, seed, "proof")
     rng = random.Random(seed)
@@ -146,6 +190,8 @@ def main(tier, seed, replay=None):
         return res
 
     nvm = vm_subsample(run, "task_message", rng, sub, subm, call, parse_vm)
+    npty = pty_leg(run, tier) if not replay else 0
+    stats["pty_runs"] = npty
     run.coverage.update(info)
     run.coverage.update({
         "checker_cmd": "make -C coq theories/Props/C20.vo && coqc Gate_C20.v (Check pinned statements + Print Assumptions)",
